@@ -324,6 +324,7 @@ class Engine:
                  silent=(), havoc_mut=True, inline_pred=None, int_hint=None, assume_ok=()):
         self.prog = prog
         self.inline = set(inline)
+        self.repo_callees = {}
         self.inline_pred = inline_pred
         self.user_models = list(models)
         self.pure = set(pure)
@@ -1192,6 +1193,8 @@ class Engine:
             if len(st.frames) >= self.max_depth:
                 raise MirError(f'inline depth {self.max_depth} exceeded at {fn}')
             return self.run_function(st, target, call.args)
+        if target is not None and not isinstance(target, tuple):
+            self.repo_callees[target.name] = target          # a repository function left uninterpreted here: obligations may want to explore it on its own
         return self.uninterpreted(st, call)
 
     def _ambiguous(self, fn, target):
